@@ -28,6 +28,13 @@ def gen_max_color(rng, i=None):
         if i % 8 not in (1, 4, 5) or all(g.viewbox[2] <= 1.5 * g.viewbox[3] for g in glyphs):
             break
         glyphs = e2e.gen_glyphset(rng, n_glyphs=n_glyphs, gradients=fmt != "glyf_colr_0", groups=fmt == "glyf_colr_1")
+    if i % 8 in (0, 5):
+        # the text foreground colour, translucent (COLRv1 keeps its alpha on the paint)
+        sh = next((x for x in e2e.all_shapes(glyphs[0]) if isinstance(x.fill, e2e.Solid)), None)
+        if sh is not None:
+            sh.fill = e2e.Solid((0, 0, 0), 1.0)
+            sh.fill.current = True
+            sh.opacity = 0.5
     if i % 8 == 4:
         # a source that paints nothing sits between the others: its glyph is no colour glyph,
         # so the colour glyphs do not form one run of consecutive glyph ids
